@@ -71,6 +71,33 @@ def run_variant(v, repo, tier, root):
         shutil.rmtree(d, ignore_errors=True)
 
 
+def audit(pid, repo, tier='quick'):
+    """Mutation-adequacy audit used by the thorough tier: every self-test variant of `pid` is applied
+    to a scratch copy of the CURRENT tree and the quick check is run on it.  Returns counts; never
+    affects the verdict of the check that calls it (a variant whose pattern no longer occurs in
+    the tree is 'stale')."""
+    variants = load_variants(pid)
+    if not variants:
+        return {'variants': 0}
+    root = tempfile.mkdtemp(prefix='vf_audit_')
+    try:
+        with ThreadPoolExecutor(max_workers=16) as ex:
+            results = list(ex.map(lambda v: run_variant(v, repo, tier, root), variants))
+    finally:
+        shutil.rmtree(root, ignore_errors=True)
+    out = {'variants': len(results), 'breaking_variants_reported': 0,
+           'preserving_variants_silent': 0, 'stale': 0, 'unexpected': []}
+    for v, status, text in results:
+        if status == 'STALE':
+            out['stale'] += 1
+        elif status == 'ok':
+            out['breaking_variants_reported' if v['expect'] == 'fire'
+                else 'preserving_variants_silent'] += 1
+        else:
+            out['unexpected'].append('%s (%s expected)' % (v['name'], v['expect']))
+    return out
+
+
 def main(args, repo):
     tier = 'quick'
     pids = []
